@@ -22,4 +22,5 @@ def check(rep, tier, replay=None):
     # BSpline::operator(): window, clamping, basis in use, output scaling and definedness by abstract execution (engine M)
     import splinem
     splinem.check_bspline(rep, tier)
-    splines.check_x1(rep, idx_cs)
+    import x1m
+    x1m.check(rep, d["cspline_eval"])
